@@ -1,6 +1,7 @@
 import WfProofs.EngineIdle
 import WfProofs.EngineTelemetry
 import WfModel.Runner
+import WfProofs.RunnerAnnounce
 /-!
 # C03 — queued work never stalls; idleness is reported only when truly idle
 
@@ -135,3 +136,358 @@ example :
     let r := C03.reach C03.w2Cfg (fun _ _ _ _ => .stop) initState 0
       [(.addEvent { ev := C03.xEv } none, 0), (.addEvent { ev := { C03.xEv with uid := 3 } } none, 0)]
     (r.2, ((r.1.workers 1).queue.length, (r.1.workers 1).inProg.length)) = (false, (1, 1)) := by decide
+
+/-! # The runner level: every reachable state of every run, fresh or resumed
+
+`C03.runFrom` starts a run as `_ControlLoopRunner.__init__` + the head of `run()` do (rehydrate,
+queue the start event, schedule the timeout, **rewind** the state the run is resumed from) and then
+follows an arbitrary schedule of the loop's actions.  `st0` is the state handed to the loop: the
+fresh `BrokerState.from_workflow`, or whatever a snapshot / tick replay produced. -/
+
+abbrev C03.runFrom (cfg : Cfg) (pol : Policy) (st0 : State) (now : Int) (start : Option Ev)
+    (timeout : Option Nat) (acts : List Act) : Runner :=
+  Runner.run cfg pol (Runner.init cfg st0 now start timeout) acts
+
+/-- **Work conservation at every reachable runner state, also for resumed runs**: whatever state
+the run is started from (no assumption on `st0`: the rewind repairs it), with or without a start
+event or timeout, after any schedule — as long as the run has no outcome, a step with a non-empty
+queue has exactly `num_workers` invocations in progress. -/
+theorem C03_work_conserving_runner (cfg : Cfg) (hwf : cfg.WF) (pol : Policy) (st0 : State) (now : Int)
+    (start : Option Ev) (timeout : Option Nat) (acts : List Act)
+    (hlive : (C03.runFrom cfg pol st0 now start timeout acts).outcome = none) :
+    ∀ c ∈ cfg.steps,
+      ((C03.runFrom cfg pol st0 now start timeout acts).st.workers c.name).queue ≠ [] →
+        ((C03.runFrom cfg pol st0 now start timeout acts).st.workers c.name).inProg.length = c.numWorkers := by
+  have hi : IdsInv cfg (C03.runFrom cfg pol st0 now start timeout acts).st := by
+    apply run_idsInv cfg hwf pol
+    rw [init_st]; exact rewind_idsInv_fresh cfg hwf st0 now
+  have hq : QInv cfg (C03.runFrom cfg pol st0 now start timeout acts).st := by
+    apply run_qInv cfg hwf pol acts _ _ hlive
+    intro _
+    rw [init_st]
+    intro c hc
+    unfold rewind
+    exact rewindLoop_qOk now (sortedSteps cfg) st0 []
+      ((sortedSteps_names_perm cfg).nodup_iff.mpr hwf) c (mem_sortedSteps_iff.mpr hc)
+  intro c hc hne
+  exact Nat.le_antisymm (hi c hc).length_le (hq c hc hne)
+
+/-- **The rewind, exactly** (resumed runs): per step, the pending invocations of the state a run is
+resumed from are its former in-progress rows (each re-inserted at the head of the queue, hence
+reversed) followed by its former queue; the first `min(num_workers, #pending)` are started, in
+that order, the others stay queued in order.  Nothing is lost or duplicated and no slot stays
+free while an invocation waits. -/
+theorem C03_rewind_exact (cfg : Cfg) (hwf : cfg.WF) (st0 : State) (now : Int) (c : StepCfg)
+    (hc : c ∈ cfg.steps) :
+    let pending := ((st0.workers c.name).inProg.map inProgToAttempt).reverse ++ (st0.workers c.name).queue
+    let k := min c.numWorkers pending.length
+    let ss := (rewind cfg st0 now).1.workers c.name
+    ss.inProg.map (·.ev) = (pending.take k).map (·.ev) ∧ ss.queue = pending.drop k ∧
+      ss.inProg.length = k ∧ ss.collected = (st0.workers c.name).collected ∧
+      ss.waiters = (st0.workers c.name).waiters := by
+  intro pending k ss
+  have hs : ss = (rewindStep c (st0.workers c.name) now).1 := rewind_spec cfg hwf st0 now c hc
+  obtain ⟨h1, h2, h3, h4, h5⟩ := rewindStep_spec c (st0.workers c.name) now
+  rw [hs]
+  exact ⟨h2, h1, h3, h4, h5⟩
+
+/-- **In-progress means live** (the converse of C01's clause 1): in every reachable state of an open
+run every in-progress row of a configured step is backed by a live worker task with that step and
+worker id — or its own result tick is the (only) tick in the buffer, about to be reduced — or a
+`StopEvent` result is in the buffer (the runner has cancelled all tasks; the next reduction ends the
+run, `C02_stop_result_ends_run`).  A row is never a stale mark. -/
+theorem C03_in_progress_is_live (cfg : Cfg) (hwf : cfg.WF) (pol : Policy) (st0 : State)
+    (h0 : IdsInv cfg st0) (now : Int) (start : Option Ev) (timeout : Option Nat) (acts : List Act)
+    (hlive : (C03.runFrom cfg pol st0 now start timeout acts).outcome = none) :
+    ∀ c ∈ cfg.steps, ∀ ip ∈ ((C03.runFrom cfg pol st0 now start timeout acts).st.workers c.name).inProg,
+      (∃ x ∈ (C03.runFrom cfg pol st0 now start timeout acts).running, x.step = c.name ∧ x.wid = ip.wid) ∨
+      (∃ ev res, (C03.runFrom cfg pol st0 now start timeout acts).buf = [.stepResult c.name ip.wid ev res]) ∨
+      (∃ s w ev res, (C03.runFrom cfg pol st0 now start timeout acts).buf = [.stepResult s w ev res] ∧
+        hasStopResult res = true) := by
+  intro c hc ip hip
+  exact (reach_c03Inv cfg hwf pol st0 h0 now start timeout acts).live hlive c.name
+    (List.mem_map_of_mem hc) ip hip
+
+/-- **Queued work runs at the full worker limit, for real**: whenever the loop is waiting (empty
+buffer: the only states in which time passes) and a step has queued events, exactly `num_workers`
+worker tasks of that step are alive. -/
+theorem C03_full_limit_live (cfg : Cfg) (hwf : cfg.WF) (pol : Policy) (st0 : State)
+    (h0 : IdsInv cfg st0) (now : Int) (start : Option Ev) (timeout : Option Nat) (acts : List Act)
+    (hlive : (C03.runFrom cfg pol st0 now start timeout acts).outcome = none)
+    (hwait : (C03.runFrom cfg pol st0 now start timeout acts).buf = []) :
+    ∀ c ∈ cfg.steps,
+      ((C03.runFrom cfg pol st0 now start timeout acts).st.workers c.name).queue ≠ [] →
+        ((C03.runFrom cfg pol st0 now start timeout acts).running.filter (fun w => w.step == c.name)).length
+          = c.numWorkers := by
+  intro c hc hne
+  have hI := reach_c03Inv cfg hwf pol st0 h0 now start timeout acts
+  have hcount := C03_work_conserving_runner cfg hwf pol st0 now start timeout acts hlive c hc hne
+  unfold C03.runFrom at hlive hwait hne hcount ⊢
+  generalize Runner.run cfg pol (Runner.init cfg st0 now start timeout) acts = r at *
+  have hn1 : ((r.running.filter (fun w => w.step == c.name)).map (·.wid)).Nodup :=
+    nodup_wids_of_slots c.name r.running hI.run.nodup
+  have hn2 : (usedIds (r.st.workers c.name)).Nodup := (hI.run.ids c hc).1
+  have hsub1 : (r.running.filter (fun w => w.step == c.name)).map (·.wid) ⊆ usedIds (r.st.workers c.name) := by
+    intro w hw
+    obtain ⟨x, hx, rfl⟩ := List.mem_map.mp hw
+    obtain ⟨hxr, hxs⟩ := List.mem_filter.mp hx
+    have hxs' : x.step = c.name := by simpa using hxs
+    obtain ⟨_, ip, hip, hwid, _⟩ := hI.run.sub x hxr
+    rw [hxs'] at hip
+    exact mem_usedIds.mpr ⟨ip, hip, hwid⟩
+  have hsub2 : usedIds (r.st.workers c.name) ⊆ (r.running.filter (fun w => w.step == c.name)).map (·.wid) := by
+    intro w hw
+    obtain ⟨ip, hip, rfl⟩ := mem_usedIds.mp hw
+    obtain ⟨x, hx, hxs, hxw⟩ := hI.live.of_buf_ne hlive (by intro _ _ _ _ hb; rw [hwait] at hb; cases hb)
+      c.name (List.mem_map_of_mem hc) ip hip
+    exact List.mem_map.mpr ⟨x, List.mem_filter.mpr ⟨hx, by simp [hxs]⟩, hxw⟩
+  have l1 := List.Nodup.length_le_of_subset hn1 hsub1
+  have l2 := List.Nodup.length_le_of_subset hn2 hsub2
+  simp only [List.length_map, usedIds] at l1 l2
+  omega
+
+/-- **The deferred idle check, exactly**: in every reachable state `_idle_check_pending` is true
+exactly when a `TickIdleCheck` is in the tick buffer; there is at most one, it is the last tick of
+the buffer (everything buffered is reduced before it), and neither the timer heap nor the mailbox
+ever holds one. -/
+theorem C03_idle_check_exact (cfg : Cfg) (hwf : cfg.WF) (pol : Policy) (st0 : State)
+    (h0 : IdsInv cfg st0) (now : Int) (start : Option Ev) (timeout : Option Nat) (acts : List Act) :
+    let r := C03.runFrom cfg pol st0 now start timeout acts
+    (r.idlePending = true ↔ Tick.idleCheck ∈ r.buf) ∧ r.buf.count .idleCheck ≤ 1 ∧
+      (∀ pre post, r.buf = pre ++ Tick.idleCheck :: post → post = []) ∧
+      (∀ tm ∈ r.heap, tm.tick ≠ .idleCheck) ∧ (∀ t ∈ r.mailbox, t ≠ .idleCheck) := by
+  intro r
+  have hI := (reach_c03Inv cfg hwf pol st0 h0 now start timeout acts).idle
+  refine ⟨?_, ?_, ?_, fun tm htm => isTimerKind_ne_idleCheck (hI.heap tm htm),
+    fun t ht => isExternal_ne_idleCheck (hI.mbox t ht)⟩
+  · rcases hI.form with ⟨hp, hn⟩ | ⟨hp, pre, hb, hn⟩
+    · constructor
+      · intro h; rw [hp] at h; cases h
+      · intro h; exact absurd rfl (hn _ h)
+    · constructor
+      · intro _; rw [hb]; simp
+      · intro _; exact hp
+  · rcases hI.form with ⟨hp, hn⟩ | ⟨hp, pre, hb, hn⟩
+    · rw [List.count_eq_zero_of_not_mem (fun h => absurd rfl (hn _ h))]; omega
+    · rw [hb, List.count_append, List.count_eq_zero_of_not_mem (fun h => absurd rfl (hn _ h))]
+      simp
+  · intro pre' post hb'
+    rcases hI.form with ⟨hp, hn⟩ | ⟨hp, pre, hb, hn⟩
+    · exact absurd rfl (hn .idleCheck (by rw [hb']; simp))
+    · rw [hb] at hb'
+      -- `pre ++ [ic] = pre' ++ ic :: post` with no `ic` in `pre`
+      cases post with
+      | nil => rfl
+      | cons q post' =>
+        exfalso
+        have hlen := congrArg List.length hb'
+        simp only [List.length_append, List.length_cons, List.length_nil] at hlen
+        have hmem : Tick.idleCheck ∈ pre := by
+          have h1 : pre' ++ Tick.idleCheck :: q :: post' = (pre' ++ [Tick.idleCheck]) ++ (q :: post') := by simp
+          rw [h1] at hb'
+          have h2 := List.append_eq_append_iff.mp hb'
+          rcases h2 with ⟨a', ha1, ha2⟩ | ⟨c', hc1, hc2⟩
+          · -- pre' ++ [ic] = pre ++ a', [ic] = a' ++ q :: post'
+            cases a' with
+            | nil => rw [List.append_nil] at ha1; rw [← ha1]; simp
+            | cons x xs =>
+              exfalso
+              simp only [List.cons_append, List.cons.injEq] at ha2
+              have : xs ++ q :: post' = [] := ha2.2.symm
+              simp at this
+          · rw [hc1]; simp
+        exact absurd rfl (hn _ hmem)
+
+/-! ## The strongest true idle theorem on the runner, and the two exceptions, exactly -/
+
+/-- **Idle announcements on the runner**: take any reachable state `r` of any run and any action
+`a` of the loop (a step's own stream write may not forge an idle announcement), and suppose the
+action appends `new` to the published stream with an idle announcement (`WorkflowIdleEvent`, or
+`UnhandledEvent(idle=True)`) in it.  Then in the state `r'` right after it
+* the action was a `drain`: only the loop itself announces;
+* the run is marked running and every step's queue and in-progress table are empty;
+* **no worker task is alive**;
+* the announcement queued nothing: the buffer is what was behind the announcing tick, plus at most
+  the idle check; it holds no step result;
+* for `WorkflowIdleEvent` the buffer is **empty** and the idle-check flag is down.
+What may still be pending is therefore confined to the timer heap and the mailbox (and, for
+`UnhandledEvent(idle=True)`, the rest of the batch the unhandled event arrived in) — see
+`C03_idle_exceptions_exact`. -/
+theorem C03_idle_runner_sound (cfg : Cfg) (hwf : cfg.WF) (pol : Policy) (st0 : State)
+    (h0 : IdsInv cfg st0) (now : Int) (start : Option Ev) (timeout : Option Nat) (acts : List Act)
+    (a : Act) (ha : ∀ p, a = .stepWrite p → p.isIdleAnn = false) (new : List Pub)
+    (hnew : ((C03.runFrom cfg pol st0 now start timeout acts).step cfg pol a).stream
+      = (C03.runFrom cfg pol st0 now start timeout acts).stream ++ new)
+    (hidle : new.any Pub.isIdleAnn = true) :
+    let r := C03.runFrom cfg pol st0 now start timeout acts
+    let r' := r.step cfg pol a
+    a = .drain ∧
+    r'.st.isRunning = true ∧
+    (∀ c ∈ cfg.steps, (r'.st.workers c.name).queue = [] ∧ (r'.st.workers c.name).inProg = []) ∧
+    r'.running = [] ∧
+    (r'.buf = r.buf.tail ∨ r'.buf = r.buf.tail ++ [.idleCheck]) ∧
+    (∀ t ∈ r'.buf, t.isStepResult = false) ∧
+    (Pub.idle ∈ new → r'.buf = [] ∧ r'.idlePending = false) := by
+  intro r r'
+  have hI : C03Inv cfg r := reach_c03Inv cfg hwf pol st0 h0 now start timeout acts
+  have hI' : C03Inv cfg r' := step_c03Inv cfg hwf pol r a hI
+  have hne : new ≠ [] := by intro h; rw [h] at hidle; cases hidle
+  rcases step_stream cfg pol r a with hs | ⟨p, rfl, hs⟩ | ⟨t, rest, rfl, ho, hb, hc, he⟩
+  · exfalso
+    have : r.stream ++ new = r.stream ++ [] := by rw [← hnew, List.append_nil]; exact hs
+    exact hne (List.append_cancel_left this)
+  · exfalso
+    have : r.stream ++ new = r.stream ++ [p] := by rw [← hnew]; exact hs
+    have hn := List.append_cancel_left this
+    rw [hn] at hidle
+    simp only [List.any_cons, List.any_nil, Bool.or_false] at hidle
+    rw [ha p rfl] at hidle; cases hidle
+  · obtain ⟨new', hs1, hs2⟩ := execCmds_stream (reduce cfg pol t r.st r.now).2
+      (r.logged t rest (reduce cfg pol t r.st r.now).1)
+    have hnn : new = new' := by
+      have : r.stream ++ new = r.stream ++ new' := by
+        rw [← hnew]; show (r.step cfg pol .drain).stream = _; rw [he]; exact hs1
+      exact List.append_cancel_left this
+    subst hnn
+    obtain ⟨p, hp, hpi⟩ := List.any_eq_true.mp hidle
+    have hany : (reduce cfg pol t r.st r.now).2.any isIdlePub = true :=
+      List.any_eq_true.mpr ⟨_, hs2 p hp, by rw [isIdlePub_publish]; exact hpi⟩
+    have hquiet := checkIdle_quiet (reduce_idle_quiet cfg pol t r.st r.now hany)
+    have hst : r'.st = (reduce cfg pol t r.st r.now).1 := by
+      show (r.step cfg pol .drain).st = _; rw [he, execCmds_st]; rfl
+    have hnsr : t.isStepResult = false := reduce_idlePub_not_stepResult cfg pol t r.st r.now hany
+    obtain ⟨_, extra, _, hx2, hx3⟩ := drain_shape cfg pol False r t rest hI.run hb hI.idle.form
+    have hextra := hx2 hnsr
+    rw [hextra, List.append_nil] at hx3
+    have hbuf' : r'.buf = rest ∨ r'.buf = rest ++ [.idleCheck] := by
+      show (r.step cfg pol .drain).buf = _ ∨ (r.step cfg pol .drain).buf = _
+      rw [he]; exact hx3
+    have hrest : ∀ x ∈ rest, x.isStepResult = false := by
+      rcases hI.run.buf with hn | ⟨s, w, ev, res, hb', _⟩
+      · intro x hx; exact hn x (by rw [hb]; simp [hx])
+      · rw [hb] at hb'; simp only [List.cons.injEq] at hb'
+        rw [hb'.2]; intro x hx; cases hx
+    refine ⟨rfl, ?_, ?_, ?_, ?_, ?_, ?_⟩
+    · rw [hst]; exact hquiet.1
+    · rw [hst]; exact hquiet.2
+    · apply List.eq_nil_iff_forall_not_mem.mpr
+      intro x hx
+      obtain ⟨hname, ip, hip, _, _⟩ := hI'.run.sub x hx
+      obtain ⟨c, hc', hcn⟩ := List.mem_map.mp hname
+      have := (hquiet.2 c hc').2
+      rw [hst, ← hcn, this] at hip
+      cases hip
+    · rw [hb]; exact hbuf'
+    · intro x hx
+      rcases hbuf' with h | h
+      · rw [h] at hx; exact hrest x hx
+      · rw [h] at hx
+        rcases List.mem_append.mp hx with hx | hx
+        · exact hrest x hx
+        · simp only [List.mem_singleton] at hx; subst hx; rfl
+    · intro hidlepub
+      have htick : t = .idleCheck := reduce_pub_idle_tick cfg pol t r.st r.now (hs2 _ hidlepub)
+      subst htick
+      have hf := hI.idle.form
+      rw [hb] at hf
+      have hrest0 : rest = [] := hf.pop.2.1 rfl
+      subst hrest0
+      show (r.step cfg pol .drain).buf = [] ∧ (r.step cfg pol .drain).idlePending = false
+      rw [he]
+      simp only [reduce]
+      split <;> simp [execCmds, execCmd, Runner.logged]
+
+/-- **The two exceptions, exactly.**  When `WorkflowIdleEvent` is announced, the run is *not* truly
+idle (`C03.TrulyIdle`: something can still happen without new external input) **iff** a delayed retry
+waits in the timer heap (known finding `C03/idle_with_pending_retry_timer`, `C03_refuted_timer`)
+or an event already sent to the run waits in the mailbox (known finding
+`C03/idle_with_undelivered_event`, `C03_refuted_mailbox`).  Nothing else: the buffer is empty, no
+task is alive, queues and in-progress tables are empty (`C03_idle_runner_sound`); the heap holds only
+delayed retries, waiter timeouts and the run's timeout, the mailbox only what another party put. -/
+theorem C03_idle_exceptions_exact (cfg : Cfg) (hwf : cfg.WF) (pol : Policy) (st0 : State)
+    (h0 : IdsInv cfg st0) (now : Int) (start : Option Ev) (timeout : Option Nat) (acts : List Act)
+    (a : Act) (ha : ∀ p, a = .stepWrite p → p.isIdleAnn = false) (new : List Pub)
+    (hnew : ((C03.runFrom cfg pol st0 now start timeout acts).step cfg pol a).stream
+      = (C03.runFrom cfg pol st0 now start timeout acts).stream ++ new)
+    (hidle : Pub.idle ∈ new) :
+    let r' := (C03.runFrom cfg pol st0 now start timeout acts).step cfg pol a
+    (C03.TrulyIdle r' = false ↔
+      (r'.heap.any (fun t => C03.isAddEvent t.tick) = true ∨ r'.mailbox.any C03.isAddEvent = true)) ∧
+    (∀ tm ∈ r'.heap, tm.tick.isTimerKind = true) ∧ (∀ t ∈ r'.mailbox, t.isExternal = true) := by
+  intro r'
+  have hany : new.any Pub.isIdleAnn = true := List.any_eq_true.mpr ⟨_, hidle, rfl⟩
+  obtain ⟨_, _, _, _, _, _, hb⟩ :=
+    C03_idle_runner_sound cfg hwf pol st0 h0 now start timeout acts a ha new hnew hany
+  have hbuf : r'.buf = [] := (hb hidle).1
+  have hI' : C03Inv cfg r' := step_c03Inv cfg hwf pol _ a (reach_c03Inv cfg hwf pol st0 h0 now start timeout acts)
+  refine ⟨?_, hI'.idle.heap, hI'.idle.mbox⟩
+  simp only [C03.TrulyIdle, hbuf, List.any_nil, Bool.not_false, Bool.and_true]
+  cases h1 : r'.heap.any (fun t => C03.isAddEvent t.tick) <;> cases h2 : r'.mailbox.any C03.isAddEvent <;> simp
+
+/-- **Truly idle is quiescent**: after a `WorkflowIdleEvent` announcement with an empty timer heap
+and an empty mailbox, whatever the loop tries on its own (drain, pull, timer, a worker finishing,
+time passing — everything but an external `send_event`) changes nothing but the clock: only new
+external input can make anything happen. -/
+theorem C03_truly_idle_is_quiescent (cfg : Cfg) (hwf : cfg.WF) (pol : Policy) (st0 : State)
+    (h0 : IdsInv cfg st0) (now : Int) (start : Option Ev) (timeout : Option Nat) (acts : List Act)
+    (a : Act) (ha : ∀ p, a = .stepWrite p → p.isIdleAnn = false) (new : List Pub)
+    (hnew : ((C03.runFrom cfg pol st0 now start timeout acts).step cfg pol a).stream
+      = (C03.runFrom cfg pol st0 now start timeout acts).stream ++ new)
+    (hidle : Pub.idle ∈ new) (more : List Act) (hint : ∀ b ∈ more, b.isInternal = true) :
+    let r' := (C03.runFrom cfg pol st0 now start timeout acts).step cfg pol a
+    r'.heap = [] → r'.mailbox = [] → r'.sameButClock (Runner.run cfg pol r' more) := by
+  intro r' hh hm
+  have hany : new.any Pub.isIdleAnn = true := List.any_eq_true.mpr ⟨_, hidle, rfl⟩
+  obtain ⟨_, _, _, hrun, _, _, hb⟩ :=
+    C03_idle_runner_sound cfg hwf pol st0 h0 now start timeout acts a ha new hnew hany
+  exact run_quiescent cfg pol more r' hint (hb hidle).1 hrun hh hm
+
+/-! Non-vacuity of the runner-level theorems -/
+
+/-- a two-worker step with three events delivered: two invocations live, one queued, the loop waiting -/
+def C03.w3Cfg : Cfg := { steps := [{ name := 1, accepted := [5], numWorkers := 2, hasRetry := false }] }
+def C03.w3Acts : List Act :=
+  [.external (.addEvent { ev := { C03.xEv with uid := 1 } } none), .pull, .drain,
+   .external (.addEvent { ev := { C03.xEv with uid := 2 } } none), .pull, .drain,
+   .external (.addEvent { ev := { C03.xEv with uid := 3 } } none), .pull, .drain]
+
+example : C03.w3Cfg.WF := by simp [Cfg.WF, Cfg.names, C03.w3Cfg]
+example :
+    let r := C03.runFrom C03.w3Cfg (fun _ _ _ _ => .stop) initState 0 none none C03.w3Acts
+    (r.outcome.isNone, r.buf.length, ((r.st.workers 1).queue.length, (r.st.workers 1).inProg.length),
+      (r.running.filter (fun w => w.step == 1)).length) = (true, 0, (1, 2), 2) := by decide
+
+/-- a resumed state: three in-progress rows (more than the step now has workers) and one queued event -/
+def C03.resumedState : State :=
+  { isRunning := true,
+    workers := fun s => if s = 1 then
+      { queue := [{ ev := { C03.xEv with uid := 9 } }],
+        inProg := [{ ev := { C03.xEv with uid := 1 }, wid := 0, snapEvents := [], snapWaiters := [], attempts := 0, firstAt := 0 },
+                   { ev := { C03.xEv with uid := 2 }, wid := 1, snapEvents := [], snapWaiters := [], attempts := 1, firstAt := 0 },
+                   { ev := { C03.xEv with uid := 3 }, wid := 2, snapEvents := [], snapWaiters := [], attempts := 0, firstAt := 0 }] }
+      else {} }
+
+example :
+    let ss := (rewind C03.w3Cfg C03.resumedState 5).1.workers 1
+    (ss.inProg.map (·.ev.uid), ss.queue.map (·.ev.uid)) = ([3, 2], [1, 9]) := by decide
+
+example :
+    let r := C03.runFrom C03.w3Cfg (fun _ _ _ _ => .stop) C03.resumedState 5 none none []
+    (r.outcome.isNone, (r.st.workers 1).queue.length, r.running.map (fun w => (w.wid, w.ev.uid))) =
+      (true, 2, [(0, 3), (1, 2)]) := by decide
+
+/-- the idle check is buffered behind the tick that made the state quiet, and the flag is up -/
+example :
+    let r := C03.runFrom C03.w2Cfg (fun _ _ _ _ => .stop) initState 0 (some C03.startEv) none
+      [.drain, .workerDone 0 0 [.result none], .drain]
+    (r.buf, r.idlePending) = ([Tick.idleCheck], true) := by decide
+
+/-- a truthful announcement: the step returns `None`, the idle check is reduced, `WorkflowIdleEvent`
+is published with nothing left anywhere — the hypotheses of `C03_idle_runner_sound`,
+`C03_idle_exceptions_exact` and `C03_truly_idle_is_quiescent` hold on this run -/
+example :
+    let r := C03.runFrom C03.w2Cfg (fun _ _ _ _ => .stop) initState 0 (some C03.startEv) none
+      [.drain, .workerDone 0 0 [.result none], .drain]
+    let r' := r.step C03.w2Cfg (fun _ _ _ _ => .stop) .drain
+    r'.stream = r.stream ++ [.idle] ∧ C03.TrulyIdle r' = true ∧ r'.heap = [] ∧ r'.mailbox = [] ∧
+      r'.running = [] ∧ r'.buf = [] := by decide
